@@ -236,7 +236,7 @@ func runUnit(u Unit, cfg *PropConfig, tier string, workdir string, res *checkRes
 		}
 		var keep []*Obligation
 		for _, o := range e.obligations {
-			if (o.Kind == "safety" || o.Kind == "alloc") && (cfg.Scope == "tagged" || taggedRoot[o.Root]) {
+			if (o.Kind == "safety" || o.Kind == "alloc") && (cfg.Scope == "tagged" || u.Scope == "tagged" || u.Scope == "clauses" || taggedRoot[o.Root]) {
 				continue
 			}
 			if u.Scope == "clauses" && o.Kind == "requires" && strings.Contains(o.Name, ":nonnil.") {
